@@ -144,6 +144,14 @@ def env_property(pid, tier, seed, only=None):
         v6, n6 = c09.c06_violations(tier, seed)
         roll_viol += v6
         extra_note["improvement_env_checkers"] = {"cases": n6, "violations": len(v6)}
+    if pid in ("C03", "C07", "C04") and not only:
+        # the step-wise (dense) reward interfaces: DenseRewardTSPEnv, FJSP/JSSP stepwise_reward (DenseTSP.tla, FJSPStepwise.tla)
+        from harness.props import c03b_dense
+        vb, cb = c03b_dense.violations(tier, seed, props=(pid,))
+        roll_viol += [v for v in vb if v["property"] == pid]
+        extra_states += cb["states"]
+        extra_trans += cb["transitions"]
+        extra_note["stepwise_rewards"] = {k: cb.get(k) for k in ("states", "transitions", "replayed", "per_env", "observations")}
     viol = [v for r in results for v in r.violations] + roll_viol
     for r in results:
         for d in r.drift[:5]:
